@@ -8,6 +8,7 @@ import (
 	"fmt"
 	"math/rand/v2"
 	"reflect"
+	"regexp"
 	"sort"
 	"strings"
 	"testing"
@@ -227,6 +228,7 @@ func TestVerifC13Load(t *testing.T) {
 	nInvalid += c13ServiceProbe(out, factories, nInvalid)
 	nInvalid += c13StrictAll(out, factories, nInvalid)
 	nInvalid += c13RuleCombos(out, factories, nInvalid)
+	nInvalid += c13MistakesBothEntryPoints(out, factories, nInvalid)
 	for _, c := range vCases(vN(300)) {
 		if c < nInvalid {
 			continue // case indices 0..nInvalid-1 are the corpus of invalid nested values
@@ -279,6 +281,19 @@ func TestVerifC13Load(t *testing.T) {
 		}
 		effJSON, _ := json.Marshal(eff)
 		effText := fmt.Sprintf("%v", eff) + string(effJSON)
+		// the same document through the `validate` sub-command's entry point (every 4th case; every case in the thorough tier)
+		if vThorough() || c%4 == 0 {
+			var verr error
+			func() {
+				defer func() {
+					if r := recover(); r != nil {
+						verr = fmt.Errorf("PANIC: %v", r)
+					}
+				}()
+				verr = xconfmap.Validate(cfg)
+			}()
+			c13EntryPoints(out, js, verr, "generated")
+		}
 		// the same document, parsed once more, for the isolated per-instance loads
 		var parsed *confmap.Conf
 		if ret, rerr := confmap.NewRetrievedFromYAML(js); rerr == nil {
@@ -556,6 +571,127 @@ func c13LoadJSON(factories otelcol.Factories, root map[string]any) (cfg *otelcol
 	return cp.Get(context.Background(), factories)
 }
 
+// ---- the `validate` sub-command's entry point ---------------------------------------------------------------
+// otelcol.Collector.DryRun loads the same document through the same provider and must judge it like the start-up path
+// (ConfigProvider.Get + xconfmap.Validate, collector.go setupConfigurationComponents): whatever that path rejects, DryRun
+// rejects, with the same error lines. DryRun additionally builds the pipeline graph, so it may reject MORE (counted).
+
+var c13RootChoice = regexp.MustCompile(`which is not configured|ambiguous ID`)
+
+// the list of known component types in an "unknown type" error is printed in Go map order
+var c13ValidValues = regexp.MustCompile(`\(valid values: \[[^\]]*\]\)`)
+
+func c13DryRun(js []byte) (err error) {
+	defer func() {
+		if r := recover(); r != nil {
+			err = fmt.Errorf("PANIC: %v", r)
+		}
+	}()
+	col, err := otelcol.NewCollector(otelcol.CollectorSettings{
+		BuildInfo: component.BuildInfo{Command: "otelcorecol", Version: "verif"}, Factories: components,
+		ConfigProviderSettings: otelcol.ConfigProviderSettings{ResolverSettings: confmap.ResolverSettings{
+			URIs: []string{"yaml:" + string(js)}, ProviderFactories: []confmap.ProviderFactory{yamlprovider.NewFactory()}}},
+		DisableGracefulShutdown: true, SkipSettingGRPCLogger: true,
+	})
+	if err != nil {
+		return fmt.Errorf("NEWCOLLECTOR: %w", err)
+	}
+	return col.DryRun(context.Background())
+}
+
+// c13EntryPoints: `runErr` is what load + xconfmap.Validate said about the document (nil = accepted)
+func c13EntryPoints(out *vOut, js []byte, runErr error, where string) {
+	dry := c13DryRun(js)
+	out.Linef("stat dryrun_checked 1")
+	switch {
+	case runErr != nil && dry == nil:
+		out.Linef("viol sig=C13/strict/dryrun-accepts-what-run-rejects at=%s run_err=%s", where, vHex(strings.SplitN(runErr.Error(), "\n", 2)[0]))
+	case runErr != nil && dry != nil:
+		if strings.HasPrefix(dry.Error(), "PANIC") {
+			out.Linef("viol sig=C13/strict/dryrun-panics-where-run-rejects at=%s err=%s", where, vHex(dry.Error()))
+			return
+		}
+		// same named entries: every line of the start-up path's error is a line of DryRun's (Go map iteration may pick another
+		// reference error of the same phase: those documents are only counted)
+		have := map[string]bool{}
+		for _, l := range strings.Split(c13ValidValues.ReplaceAllString(strings.TrimPrefix(dry.Error(), "failed to get config: "), ""), "\n") {
+			have[l] = true
+		}
+		for _, l := range strings.Split(c13ValidValues.ReplaceAllString(runErr.Error(), ""), "\n") {
+			if !have[l] {
+				if c13RootChoice.MatchString(l) || c13RootChoice.MatchString(dry.Error()) {
+					out.Linef("stat dryrun_other_admissible_reference_error 1")
+				} else {
+					out.Linef("viol sig=C13/strict/dryrun-error-differs at=%s missing=%s dry=%s", where, vHex(l), vHex(dry.Error()))
+				}
+				break
+			}
+		}
+		out.Linef("stat dryrun_rejects_too 1")
+	case runErr == nil && dry != nil:
+		out.Linef("stat dryrun_rejects_more 1") // graph-level rules (outside the property)
+	default:
+		out.Linef("stat dryrun_accepts_too 1")
+	}
+}
+
+// the reference / shape / telemetry mistakes of the property through BOTH entry points
+func c13MistakesBothEntryPoints(out *vOut, factories otelcol.Factories, first int) int {
+	pipe := func(root map[string]any) map[string]any {
+		return root["service"].(map[string]any)["pipelines"].(map[string]any)["traces"].(map[string]any)
+	}
+	type mistake struct {
+		name   string
+		mutate func(root map[string]any)
+	}
+	ms := []mistake{
+		{"pipeline-without-receivers", func(r map[string]any) { pipe(r)["receivers"] = []any{} }},
+		{"pipeline-without-exporters", func(r map[string]any) { pipe(r)["exporters"] = []any{} }},
+		{"processor-twice", func(r map[string]any) { pipe(r)["processors"] = []any{"batch", "memory_limiter", "batch"} }},
+		{"dangling-receiver", func(r map[string]any) { pipe(r)["receivers"] = []any{"otlp", "otlp/missing"} }},
+		{"dangling-processor", func(r map[string]any) { pipe(r)["processors"] = []any{"batch/missing"} }},
+		{"dangling-exporter", func(r map[string]any) { pipe(r)["exporters"] = []any{"debug", "otlp/missing"} }},
+		{"dangling-extension", func(r map[string]any) {
+			r["service"].(map[string]any)["extensions"] = []any{"zpages", "zpages/missing"}
+		}},
+		{"no-pipelines", func(r map[string]any) { r["service"].(map[string]any)["pipelines"] = map[string]any{} }},
+		{"telemetry-metrics-without-readers", func(r map[string]any) {
+			r["service"].(map[string]any)["telemetry"] = map[string]any{"metrics": map[string]any{"level": "detailed", "readers": []any{}}}
+		}},
+		{"unknown-key-in-pipeline", func(r map[string]any) { pipe(r)["recievers"] = []any{"otlp"} }},
+		{"unknown-key-in-component", func(r map[string]any) { r["exporters"].(map[string]any)["debug"] = map[string]any{"verbosty": "basic"} }},
+		{"invalid-nested-tls", func(r map[string]any) {
+			r["exporters"].(map[string]any)["otlp"].(map[string]any)["tls"] = map[string]any{"min_version": "1.3", "max_version": "1.2"}
+		}},
+	}
+	for i, m := range ms {
+		out.Linef("case %d both-entry-points=%s", first+i, m.name)
+		out.Linef("op inst id=%s def=- w=-", vHex("mistake-"+m.name))
+		out.Linef("obs eff -")
+		root := c13ValidBase()
+		m.mutate(root)
+		js, _ := json.Marshal(root)
+		cfg, err := c13LoadJSON(factories, root)
+		if err == nil {
+			func() {
+				defer func() {
+					if r := recover(); r != nil {
+						err = fmt.Errorf("PANIC: %v", r)
+					}
+				}()
+				err = xconfmap.Validate(cfg)
+			}()
+		}
+		if err == nil {
+			out.Linef("viol sig=C13/strict/mistake-accepted/%s", m.name)
+		}
+		c13EntryPoints(out, js, err, "mistake/"+m.name)
+		out.Linef("nt")
+		out.Linef("end")
+	}
+	return len(ms)
+}
+
 func c13ValidBase() map[string]any {
 	return map[string]any{
 		"receivers": map[string]any{"otlp": map[string]any{"protocols": map[string]any{
@@ -609,6 +745,11 @@ func c13InvalidNested(out *vOut, factories otelcol.Factories) int {
 	if err != nil {
 		out.Linef("viol sig=C13/load/valid-config-rejected err=%s", vHex(err.Error()))
 	}
+	baseJS, _ := json.Marshal(c13ValidBase())
+	c13EntryPoints(out, baseJS, err, "invalid-nested/base")
+	if derr := c13DryRun(baseJS); derr != nil {
+		out.Linef("viol sig=C13/strict/dryrun-rejects-valid-base err=%s", vHex(derr.Error()))
+	}
 	out.Linef("end")
 	for i, iv := range cat {
 		out.Linef("case %d invalid-nested=%s/%s/%s", i+1, iv.section, iv.id, iv.path)
@@ -617,6 +758,14 @@ func c13InvalidNested(out *vOut, factories otelcol.Factories) int {
 		root := c13ValidBase()
 		c13SetPath(root[iv.section].(map[string]any)[iv.id].(map[string]any), iv.path, iv.v)
 		cfg, err := c13LoadJSON(factories, root)
+		{
+			rootJS, _ := json.Marshal(root)
+			runErr := err
+			if runErr == nil {
+				runErr = xconfmap.Validate(cfg)
+			}
+			c13EntryPoints(out, rootJS, runErr, fmt.Sprintf("invalid-nested/%s/%s::%s", iv.section, iv.id, iv.path))
+		}
 		switch {
 		case err != nil:
 			// rejected already while loading (decode-time validation): also fine, must name the entry
@@ -1963,13 +2112,19 @@ func c13RuleCombos(out *vOut, factories otelcol.Factories, first int) int {
 			c13SetPath(m, p, v)
 		}
 	}
+	nval := 0
 	validate := func(root map[string]any) (string, bool) {
 		cfg, err := c13LoadJSON(factories, root)
+		if err == nil {
+			err = xconfmap.Validate(cfg)
+		}
+		// every 7th combination (all of them in the thorough tier) also through the `validate` sub-command's entry point
+		if nval++; vThorough() || nval%7 == 0 {
+			js, _ := json.Marshal(root)
+			c13EntryPoints(out, js, err, "rule-combination")
+		}
 		if err != nil {
 			return err.Error(), true
-		}
-		if verr := xconfmap.Validate(cfg); verr != nil {
-			return verr.Error(), true
 		}
 		return "", false
 	}
